@@ -11,6 +11,8 @@
 #include <cstring>
 #include <cstdint>
 #include <array>
+#include <utility>
+#include <type_traits>
 #include "mem_iface.hpp"
 
 #define NOINL __attribute__((noinline))
@@ -45,6 +47,19 @@ template<class V, unsigned L> struct LN {
     static NOINL void insert(const void* r, const void* s, void* o) { T x; std::memcpy(&x, s, sizeof x); put<V>(o, avel::insert<L>(mk<V>(r), x)); }
 };
 
+// pointer-deduced compile-time gather, avel::gather<N>(T* ptr, index_vector): present only for some types (detected, not listed)
+template<class...> struct Voider { using type = void; };
+template<class V, unsigned N, class = void> struct HasDed : std::false_type {};
+template<class V, unsigned N> struct HasDed<V, N, typename Voider<decltype(avel::gather<N>(std::declval<typename V::scalar*>(), std::declval<typename Idx<V>::type>()))>::type>
+    : std::is_same<decltype(avel::gather<N>(std::declval<typename V::scalar*>(), std::declval<typename Idx<V>::type>())), V> {};
+template<class V, unsigned N, bool = HasDed<V, N>::value> struct CTGD {
+    static NOINL void gather(const void*, const void*, void*) {}
+};
+template<class V, unsigned N> struct CTGD<V, N, true> {
+    using T = typename V::scalar; using I = typename Idx<V>::type;
+    static NOINL void gather(const void* p, const void* ix, void* r) { put<V>(r, avel::gather<N>(static_cast<T*>(const_cast<void*>(p)), mk<I>(ix))); }
+};
+
 template<unsigned...> struct Seq {};
 template<unsigned N, unsigned... S> struct Gen : Gen<N - 1, N - 1, S...> {};
 template<unsigned... S> struct Gen<0, S...> { using type = Seq<S...>; };
@@ -67,6 +82,9 @@ template<class V, unsigned... N> struct TabG<V, Seq<N...>> {
     static void (*const scatter[])(void*, const void*, const void*);
 };
 template<class V, unsigned... N> void (*const TabG<V, Seq<N...>>::gather[])(const void*, const void*, void*) = {&CTG<V, N>::gather...};
+template<class V, class S> struct TabGD;
+template<class V, unsigned... N> struct TabGD<V, Seq<N...>> { static void (*const gather[])(const void*, const void*, void*); };
+template<class V, unsigned... N> void (*const TabGD<V, Seq<N...>>::gather[])(const void*, const void*, void*) = {&CTGD<V, N>::gather...};
 template<class V, unsigned... N> void (*const TabG<V, Seq<N...>>::scatter[])(void*, const void*, const void*) = {&CTG<V, N>::scatter...};
 
 template<class V, class S> struct TabL;
@@ -105,13 +123,13 @@ template<class V> struct RTG {
 #define ENTRY_G(V, NAME, FL) {COMMON(V, NAME, FL), true, (unsigned)(V::width == 1 ? sizeof(typename V::scalar) : sizeof(typename V::scalar) * V::width), \
     &RT<V>::load, &RT<V>::aligned_load, &RT<V>::store, &RT<V>::aligned_store, &RTG<V>::gather, &RTG<V>::scatter, \
     Tab<V, SEQ_N(V)>::load, Tab<V, SEQ_N(V)>::aligned_load, Tab<V, SEQ_N(V)>::store, Tab<V, SEQ_N(V)>::aligned_store, \
-    TabG<V, SEQ_N(V)>::gather, TabG<V, SEQ_N(V)>::scatter, &RT<V>::load_def, &RT<V>::store_def, \
+    TabG<V, SEQ_N(V)>::gather, (HasDed<V, 1>::value ? TabGD<V, SEQ_N(V)>::gather : nullptr), TabG<V, SEQ_N(V)>::scatter, &RT<V>::load_def, &RT<V>::store_def, \
     &RT<V>::aligned_load_def, &RT<V>::aligned_store_def, &RTG<V>::gather_def, &RTG<V>::scatter_def, &RT<V>::from_array, &RT<V>::to_array, \
     TabL<V, SEQ_L(V)>::extract, TabL<V, SEQ_L(V)>::insert},
 #define ENTRY_N(V, NAME, FL) {COMMON(V, NAME, FL), false, (unsigned)(V::width == 1 ? sizeof(typename V::scalar) : sizeof(typename V::scalar) * V::width), \
     &RT<V>::load, &RT<V>::aligned_load, &RT<V>::store, &RT<V>::aligned_store, nullptr, nullptr, \
     Tab<V, SEQ_N(V)>::load, Tab<V, SEQ_N(V)>::aligned_load, Tab<V, SEQ_N(V)>::store, Tab<V, SEQ_N(V)>::aligned_store, \
-    nullptr, nullptr, &RT<V>::load_def, &RT<V>::store_def, &RT<V>::aligned_load_def, &RT<V>::aligned_store_def, nullptr, nullptr, &RT<V>::from_array, &RT<V>::to_array, \
+    nullptr, nullptr, nullptr, &RT<V>::load_def, &RT<V>::store_def, &RT<V>::aligned_load_def, &RT<V>::aligned_store_def, nullptr, nullptr, &RT<V>::from_array, &RT<V>::to_array, \
     TabL<V, SEQ_L(V)>::extract, TabL<V, SEQ_L(V)>::insert},
 
 #if defined(AVEL_SSE2)
@@ -164,6 +182,7 @@ extern "C" const MType* CAT(mem_registry_part, MEM_PART)(std::size_t* n) { *n = 
 #else // MEM_PART == 10: prefetch
 namespace {
 struct B64 { unsigned char b[64]; };
+struct B72 { unsigned char b[72]; }; struct B200 { std::uint32_t w[50]; }; struct B4096 { double d[512]; };   // element types larger than any cache line
 template<int W, int L> struct PF {
     static NOINL void untyped(const void* p, std::size_t n) { if (W) avel::prefetch_write<(avel::Cache_level)L>(p, n); else avel::prefetch_read<(avel::Cache_level)L>(p, n); }
     template<class T> static NOINL void typed(const void* p, std::size_t n) {
@@ -171,7 +190,7 @@ template<int W, int L> struct PF {
 };
 NOINL void pr_def(const void* p) { avel::prefetch_read(p); }
 NOINL void pw_def(const void* p) { avel::prefetch_write(p); }
-#define PFL(W, L) {&PF<W, L>::typed<unsigned char>, &PF<W, L>::typed<std::uint32_t>, &PF<W, L>::typed<double>, &PF<W, L>::typed<B64>}
+#define PFL(W, L) {&PF<W, L>::typed<unsigned char>, &PF<W, L>::typed<std::uint32_t>, &PF<W, L>::typed<double>, &PF<W, L>::typed<B64>, &PF<W, L>::typed<B72>, &PF<W, L>::typed<B200>, &PF<W, L>::typed<B4096>}
 const PfOps pf = {
     {{&PF<0, 0>::untyped, &PF<0, 1>::untyped, &PF<0, 2>::untyped}, {&PF<1, 0>::untyped, &PF<1, 1>::untyped, &PF<1, 2>::untyped}},
     {{PFL(0, 0), PFL(0, 1), PFL(0, 2)}, {PFL(1, 0), PFL(1, 1), PFL(1, 2)}},
